@@ -405,6 +405,32 @@ func runC11(c *engine.Ctx) {
 			nameF := field(c, "pkg/msg", "StartWorkConn", "ProxyName")
 			getName := method(c, "server/proxy", "BaseProxy", "GetName")
 			okName, okSrc, okDst := false, false, false
+			// the message may be built in place or by a helper: each announced field is traced to where it comes from
+			// (the proxy's name; this function's source / destination address parameters, by position)
+			if marg := engine.CallArgs(w)[1]; len(f.Params) >= 3 {
+				if mi, ok := marg.(*ssa.MakeInterface); ok {
+					marg = mi.X
+				}
+				psrc, pdst := f.Params[len(f.Params)-2], f.Params[len(f.Params)-1]
+				if s := engine.DeepSourcesOfField(p, marg, nameF); s.HasCall(getName) || s.HasField(p.Field("server/proxy", "BaseProxy", "name")) {
+					okName = true
+				}
+				allFrom := func(fields []string, want, other *ssa.Parameter) bool {
+					for _, fn2 := range fields {
+						ff := p.Field("pkg/msg", "StartWorkConn", fn2)
+						if ff == nil {
+							return false
+						}
+						s := engine.DeepSourcesOfField(p, marg, ff)
+						if !s.Params[want] || s.Params[other] {
+							return false
+						}
+					}
+					return true
+				}
+				okSrc = allFrom([]string{"SrcAddr", "SrcPort"}, psrc, pdst)
+				okDst = allFrom([]string{"DstAddr", "DstPort"}, pdst, psrc)
+			}
 			src := engine.Provenance(engine.CallArgs(w)[1], engine.ProvOpts{})
 			for v := range src.Values {
 				al, ok := v.(*ssa.Alloc)
